@@ -70,17 +70,23 @@ func VH_C07_RenameTarget_sym() {
 // move, delete, alias: every path handed to the file store stays inside the root. One of the three client-supplied
 // strings (name, path item, destination item) is arbitrary bytes of every length up to 2 (so "..", "/", "." ... are
 // covered in every position), the other two are plain names.
-func c07FileOp(op int) {
+func c07FileOp(op, hostile int) {
 	vUnroll(200)
 	e := c07Env()
 	vAssume(e.fs.exists)
 	name, item, dest := []byte("a"), []byte("b"), []byte("c")
-	switch vChoice("hostile_position", 3) {
+	switch hostile {
 	case 0:
 		name = vBytesEach("name", 2)
-		if vBool("name_ends_in_partial_suffix") { // ".incomplete" is special to the file wrapper
-			name = append(append([]byte(nil), name...), ".incomplete"...)
+	case 3:
+		// ".incomplete" is special to the file wrapper: names ending in it, the part before it drawn from the bytes
+		// the path code distinguishes plus one ordinary byte (each case on its own)
+		pre := vBytesEach("name_prefix", 3)
+		for i, b := range pre {
+			vAssume(b == '.' || b == '/' || b == 'a')
+			pre[i] = byte(vConcrete(int(b)))
 		}
+		name = append(append([]byte(nil), pre...), ".incomplete"...)
 	case 1:
 		item = vBytesEach("item", 2)
 	default:
@@ -107,9 +113,16 @@ func c07FileOp(op int) {
 	}
 }
 
-func VH_C07_MoveTargets()   { c07FileOp(0) }
-func VH_C07_DeleteTargets() { c07FileOp(1) }
-func VH_C07_AliasTargets()  { c07FileOp(2) }
+func VH_C07_MoveTargetsHostileName()   { c07FileOp(0, 0) }
+func VH_C07_MoveTargetsSuffixName()    { c07FileOp(0, 3) }
+func VH_C07_DeleteTargetsSuffixName()  { c07FileOp(1, 3) }
+func VH_C07_MoveTargetsHostileItem()   { c07FileOp(0, 1) }
+func VH_C07_MoveTargetsHostileDest()   { c07FileOp(0, 2) }
+func VH_C07_DeleteTargetsHostileName() { c07FileOp(1, 0) }
+func VH_C07_DeleteTargetsHostileItem() { c07FileOp(1, 1) }
+func VH_C07_AliasTargetsHostileName()  { c07FileOp(2, 0) }
+func VH_C07_AliasTargetsHostileItem()  { c07FileOp(2, 1) }
+func VH_C07_AliasTargetsHostileDest()  { c07FileOp(2, 2) }
 
 // account files: whatever the login / new login bytes are, every file the account manager touches lies inside
 // the accounts directory
